@@ -569,9 +569,20 @@ func init() {
 				})
 				ta, tb := typeTag(a), typeTag(b)
 				modelled := !((ta == "f64" && tb == "dec") || (ta == "dec" && tb == "f64"))
-				cases = append(cases, run.Case{
+				c := run.Case{
 					Req:  `{"op":"arith","k":"` + k + `","a":` + vj.Enc(a) + `,"b":` + vj.Enc(b) + `}`,
-					Impl: impl, Nontrivial: modelled && classRank[tb] == 1, Tags: []string{k + ":" + ta + "," + tb}, Accept: acceptModuloNaN(impl)})
+					Impl: impl, Nontrivial: modelled && classRank[tb] == 1, Tags: []string{k + ":" + ta + "," + tb}, Accept: acceptModuloNaN(impl)}
+				// independent integer oracle (DESIGN §8.4): exact result; int32 unless it leaves int32; int64 overflow → Missing
+				if want, reject, ok := intPromotion(a, b, k == "mul"); ok {
+					wantS := `{"ok":{"m":1}}`
+					if !reject {
+						wantS = `{"ok":` + vj.Enc(want) + `}`
+					}
+					if impl != wantS {
+						c.Viols = []run.Violation{{Property: "C11", What: "integer " + k + " has wrong value/type or misses an overflow", Witness: "promotion:" + k + ":" + ta + "," + tb, Req: c.Req, Detail: "got " + impl + " want " + wantS}}
+					}
+				}
+				cases = append(cases, c)
 			}
 			return cases
 		},
